@@ -240,7 +240,7 @@ func generate(rng *rand.Rand, tier string) []interface{} {
 		}
 		ins = append(ins, input{Kind: "real", TCP: tcp, NP: np, NH: nh, HSend: (i / 2) % 3, Ops: genOps(rng, np, nh, n, false, tcp)})
 	}
-	nFlood := 1
+	nFlood := 0 // the corpus already holds one case of each class
 	if tier != "quick" {
 		nFlood = 12
 	}
